@@ -15,6 +15,7 @@ functions and the laws are proved.
 import KawinV.Gen.C15Shape
 import KawinV.Model.ShapeWrap
 import KawinV.Model.Bisect
+import KawinV.Model.ShapeFactorState
 import Mathlib.Tactic.Ring
 import Mathlib.Tactic.Linarith
 import Mathlib.Tactic.FieldSimp
@@ -738,6 +739,138 @@ theorem findRcritScalar_root (Rs t : α) (hRs : Rs ≠ 0) (ht : t ≠ 0) :
 theorem findRcritScalar_eq (Rs : α) (tf : α → α) : findRcritScalar Rs tf = Rs * tf Rs := rfl
 
 end bisect
+
+/-! ## setter histories: which critical-radius search is active (`KawinV.SFState`) -/
+section history
+open KawinV.SFState
+variable {α φ : Type} [Field α] [LinearOrder α] [IsStrictOrderedRing α]
+
+/-- the aspect-ratio specification a setter call leaves behind (it never depends on the past) -/
+def opSpec (cur : ArSpec α φ) : Op α φ → ArSpec α φ
+  | .setAspectRatio s => s
+  | .setShape _ s => s
+  | .setSpherical => .scalar 1
+
+def opShape (cur : Nat) : Op α φ → Nat
+  | .setAspectRatio _ => cur
+  | .setShape sh _ => sh
+  | .setSpherical => 3
+
+/-- the LAST aspect-ratio specification / shape of a history -/
+def lastSpec (s0 : ArSpec α φ) (ops : List (Op α φ)) : ArSpec α φ := ops.foldl opSpec s0
+def lastShape (sh0 : Nat) (ops : List (Op α φ)) : Nat := ops.foldl opShape sh0
+
+def searchFor : ArSpec α φ → Search
+  | .scalar _ => .closedForm
+  | .func _ => .bisection
+
+/-- the object is exactly what shape `sh` and specification `s` ask for -/
+def Matches (st : St α φ) (sh : Nat) (s : ArSpec α φ) : Prop :=
+  st.shape = sh ∧ st.search = searchFor s ∧
+    match s with
+    | .scalar c => st.aspectFn = none ∧ st.scalarAttr = some c
+    | .func f => st.aspectFn = some f
+
+theorem setAR_matches (st : St α φ) (s : ArSpec α φ) : Matches (setAR st s) st.shape s := by
+  cases s <;> simp [Matches, setAR, searchFor]
+
+theorem apply_matches (st : St α φ) (cur : ArSpec α φ) (op : Op α φ) :
+    Matches (SFState.apply st op) (opShape st.shape op) (opSpec cur op) := by
+  cases op with
+  | setAspectRatio s => exact setAR_matches st s
+  | setShape sh s => exact setAR_matches { st with shape := sh } s
+  | setSpherical => exact setAR_matches { st with shape := 3 } (.scalar 1)
+
+theorem foldl_matches (ops : List (Op α φ)) :
+    ∀ (st : St α φ) (sh : Nat) (s : ArSpec α φ), Matches st sh s →
+      Matches (ops.foldl SFState.apply st) (ops.foldl opShape sh) (ops.foldl opSpec s) := by
+  induction ops with
+  | nil => intro st sh s h; simpa using h
+  | cons op rest ih =>
+    intro st sh s h
+    simp only [List.foldl_cons]
+    apply ih
+    have := apply_matches st s op
+    rwa [h.1] at this
+
+/-- **after ANY history the object matches the last shape and the last aspect-ratio
+specification** (constructor `ShapeFactor(sh0, s0)` followed by any list of setter calls). -/
+theorem run_matches (sh0 : Nat) (s0 : ArSpec α φ) (ops : List (Op α φ)) :
+    Matches (run sh0 s0 ops) (lastShape sh0 ops) (lastSpec s0 ops) := by
+  unfold run lastShape lastSpec
+  apply foldl_matches
+  exact setAR_matches { (blank : St α φ) with shape := sh0 } s0
+
+theorem runSpherical_matches (ops : List (Op α φ)) :
+    Matches (runSpherical ops) (lastShape 3 ops) (lastSpec (.scalar 1) ops) := by
+  unfold runSpherical lastShape lastSpec
+  apply foldl_matches
+  exact setAR_matches { (blank : St α φ) with shape := 3 } (.scalar 1)
+
+/-- **the active search is the one matching the LAST aspect-ratio specification**: closed form
+after a number, bisection after a function — whatever was set before. -/
+theorem search_matches_last (sh0 : Nat) (s0 : ArSpec α φ) (ops : List (Op α φ)) :
+    (run sh0 s0 ops).search = searchFor (lastSpec s0 ops) :=
+  (run_matches sh0 s0 ops).2.1
+
+theorem findRcritPublic_of_matches (evalF : φ → α → α) (thermo : Nat → α → α) (tol Rs Rmax : α)
+    (st : St α φ) (sh : Nat) (s : ArSpec α φ) (h : Matches st sh s) :
+    findRcritPublic evalF thermo tol Rs Rmax st = findRcritOfSpec evalF thermo tol Rs Rmax sh s := by
+  obtain ⟨h1, h2, h3⟩ := h
+  cases s with
+  | scalar c =>
+    have htf : (fun R => thermo st.shape (aspectRatio evalF st R)) = fun _ => thermo sh c := by
+      funext R; simp [aspectRatio, h3.1, h3.2, h1]
+    have h0 : thermo st.shape (aspectRatio evalF st Rs) = thermo sh c := congrFun htf Rs
+    simp only [findRcritPublic, h2, searchFor, findRcritOfSpec, htf, findRcritScalar, h0]
+  | func f =>
+    have htf : (fun R => thermo st.shape (aspectRatio evalF st R)) = fun R => thermo sh (evalF f R) := by
+      funext R; simp [aspectRatio, h3, h1]
+    simp only [findRcritPublic, h2, searchFor, findRcritOfSpec, htf]
+
+/-- **the public `findRcrit` does not depend on the history**: it is the search the last shape and
+the last aspect-ratio specification ask for. -/
+theorem findRcritPublic_history (evalF : φ → α → α) (thermo : Nat → α → α) (tol Rs Rmax : α)
+    (sh0 : Nat) (s0 : ArSpec α φ) (ops : List (Op α φ)) :
+    findRcritPublic evalF thermo tol Rs Rmax (run sh0 s0 ops)
+      = findRcritOfSpec evalF thermo tol Rs Rmax (lastShape sh0 ops) (lastSpec s0 ops) :=
+  findRcritPublic_of_matches evalF thermo tol Rs Rmax _ _ _ (run_matches sh0 s0 ops)
+
+/-- **root property through the public entry point, after any history**: if the last specification
+is a function `f`, the result obeys the bisection specification for `R ↦ thermo(ar_f(R))`; if it
+is a number `c` (with `thermo c ≠ 0`, `Rs ≠ 0`), the result is an exact root. -/
+theorem findRcritPublic_root (evalF : φ → α → α) (thermo : Nat → α → α) (tol Rs Rmax : α)
+    (sh0 : Nat) (s0 : ArSpec α φ) (ops : List (Op α φ)) :
+    let o := findRcritPublic evalF thermo tol Rs Rmax (run sh0 s0 ops)
+    let sh := lastShape sh0 ops
+    match lastSpec s0 ops with
+    | .func f =>
+        (o.fallback = false ∧ |o.r / (Rs * thermo sh (evalF f o.r)) - 1| ≤ tol ∧ o.iters < 100)
+        ∨ (o.fallback = true ∧ o.iters = 100 ∧ o.r = Rs)
+    | .scalar c => Rs ≠ 0 → thermo sh c ≠ 0 → o.r / (Rs * thermo sh c) - 1 = 0 := by
+  intro o sh
+  have ho : o = findRcritOfSpec evalF thermo tol Rs Rmax sh (lastSpec s0 ops) :=
+    findRcritPublic_history evalF thermo tol Rs Rmax sh0 s0 ops
+  cases hl : lastSpec s0 ops with
+  | func f =>
+    simp only
+    rw [ho, hl]
+    exact findRcrit_spec tol Rs Rmax (fun R => thermo sh (evalF f R))
+  | scalar c =>
+    simp only
+    intro hRs ht
+    rw [ho, hl]
+    simp only [findRcritOfSpec]
+    field_simp
+    ring
+
+/-- the seeded alternative — dispatching on the stale `_aspectRatioScalar` attribute instead of on
+what was set last — is NOT history independent: number, then function. -/
+example : (run (α := ℚ) (φ := Unit) 0 (.scalar 3) [.setAspectRatio (.func ())]).scalarAttr = some 3
+    ∧ (run (α := ℚ) (φ := Unit) 0 (.scalar 3) [.setAspectRatio (.func ())]).search = .bisection := by
+  simp [run, SFState.apply, setAR, blank]
+
+end history
 
 /-! ## the real numbers: the atoms are Mathlib's functions, their laws are proved -/
 section real
